@@ -98,8 +98,9 @@ def parseHeader (line : String) : Option Header :=
       let negs ← (secs.filter fun s => s.head? == some "neg").mapM parseNeg
       let mr := (kvNat "mr" opts).getD 10000
       let mk := (kvNat "mk" opts).getD 20
+      let mx := (kvNat "mx" opts).getD 10000
       let part := (kvStr "part" opts).bind optName
-      pure { prop := prop, pat := { steps := steps, partition := part, negs := negs }, cfg := { maxRuns := mr, maxKleene := mk } }
+      pure { prop := prop, pat := { steps := steps, partition := part, negs := negs }, cfg := { maxRuns := mr, maxKleene := mk, maxResults := mx } }
     | _ => none
 
 def parseField (t : String) : Option (String × Val) :=
@@ -194,9 +195,9 @@ def parseMatch (evs : List Event) (s : String) : Option Match :=
 /-- `m.caps == capsOf m.stack` up to the representation of the map -/
 def capsAgree (m : Match) : Bool := fmtCaps m.caps == fmtCaps (capsOf m.stack)
 
-/-- `Genuine` on a match read back from the implementation (its capture map is compared as a map) -/
-def genuineImpl (p : Pat) (evs : List Event) (m : Match) : Bool :=
-  Genuine p evs { m with caps := capsOf m.stack } && capsAgree m
+/-- `GenuineK` on a match read back from the implementation (for patterns without enumeration this is
+`Genuine` with the capture map compared as a map) -/
+def genuineImpl (p : Pat) (evs : List Event) (m : Match) : Bool := GenuineK p evs m
 
 /-- all steps aliased with distinct names and no `all`: the captures determine the stack -/
 def capsDetermineStack (p : Pat) : Bool :=
@@ -283,12 +284,12 @@ def step (st : St) (line : String) : St × String :=
     match parseEvent (words op), impl?.bind splitImpl with
     | some e, some (ia, iv) =>
       let p := st.pat
-      if !p.inFragment || (st.prop == "C02" && !p.allFree) then (st, "SKIP") else
+      if !p.inFragmentK || (st.prop == "C02" && !p.allFree) then (st, "SKIP") else
       let seenA := st.seenA ++ [e]
-      let (engA, msA) := stepEngine p st.cfg st.engA e
+      let (engA, msA) := stepEngineK p st.cfg st.engA e
       let r := routed p e
       let seenV := if r then st.seenV ++ [e] else st.seenV
-      let (engV, msV) := if r then stepEngine p st.cfg st.engV e else (st.engV, [])
+      let (engV, msV) := if r then stepEngineK p st.cfg st.engV e else (st.engV, [])
       let st' := { st with engA := engA, engV := engV, seenA := seenA, seenV := seenV }
       let mA := fmtList (msA.map fmtMatch)
       let mV := if iv == "NA" then "NA" else fmtList (msV.map fun m => fmtCaps m.caps)
